@@ -837,6 +837,155 @@ func solveTruncated(prefix string, syms []byte, t int) ([]byte, bool) {
 	return y, true
 }
 
+// solveAffine finds x (n <= 40 bits) with F(x) == 0 for a function F that is affine over GF(2).
+func solveAffine(n int, F func(x uint64) uint64) (uint64, bool) {
+	base := F(0)
+	var pivV, pivC [64]uint64
+	var have [64]bool
+	reduce := func(v, c uint64) (uint64, uint64) {
+		for k := 63; k >= 0; k-- {
+			if v>>uint(k)&1 == 1 && have[k] {
+				v ^= pivV[k]
+				c ^= pivC[k]
+			}
+		}
+		return v, c
+	}
+	for bit := 0; bit < n; bit++ {
+		v, c := reduce(F(1<<uint(bit))^base, 1<<uint(bit))
+		if v != 0 {
+			k := 63 - bits.LeadingZeros64(v)
+			pivV[k], pivC[k], have[k] = v, c, true
+		}
+	}
+	target, x := reduce(base, 0)
+	if target != 0 || F(x) != 0 {
+		return 0, false
+	}
+	return x, true
+}
+
+// selfChecksumProbe: valid strings whose data part contains, somewhere in the middle, the very characters of its
+// own checksum (about one random string in 2^30 / 2^40 does; here they are constructed: the checksum is affine in
+// the data, so "data[pos..] == checksum(data)" is a linear system).  A decoder that looks for the expected checksum
+// instead of comparing it in place accepts such a string whatever its last characters are.  Every substitution of
+// one checksum character, and some of two to four, must be rejected.
+func selfChecksumProbe(ev *Ev) {
+	var n, built int64
+	try := func(codec, prefix string, syms []byte, ck int, enc func([]byte) string) bool {
+		free, w := 1, ck
+		for _, pos := range []int{free + w + 1, len(syms) - w - 3} {
+			if pos < free+w || pos+w > len(syms) {
+				continue
+			}
+			val := func(x uint64) []byte {
+				y := append([]byte{}, syms...)
+				for b := 0; b < 5*w; b++ {
+					if x>>uint(b)&1 == 1 {
+						y[free+b/5] ^= 1 << uint(b%5)
+					}
+				}
+				return y
+			}
+			x, ok := solveAffine(5*w, func(x uint64) uint64 {
+				y := val(x)
+				full := enc(y)
+				tail := full[len(full)-w:]
+				var d uint64
+				for i := 0; i < w; i++ {
+					d = d<<5 | uint64(symbolOf(tail[i])^int(y[pos+i]))
+				}
+				return d
+			})
+			if !ok {
+				continue
+			}
+			valid := enc(val(x))
+			if !strings.Contains(valid[:len(valid)-w], valid[len(valid)-w:]) {
+				ev.Note("self-checksum construction failed for %s %q (harness)", codec, prefix)
+				continue
+			}
+			built++
+			accepts := func(s string) bool {
+				return c03ImplAccepts(codec, s) || (codec == "cashaddr" && c03AddrAccepts(prefix, s))
+			}
+			if !accepts(valid) {
+				kC03Witness.One(ev, c03Witness{Codec: codec, Valid: valid, Corrupted: valid})
+				ev.Note("valid string %q (its data contains its own checksum) is rejected", valid)
+				return false
+			}
+			var cands []string
+			for i := len(valid) - w; i < len(valid); i++ {
+				for _, ch := range []byte(b32Charset) {
+					if ch != valid[i] {
+						b := []byte(valid)
+						b[i] = ch
+						cands = append(cands, string(b))
+					}
+				}
+			}
+			for k := 2; k <= 4; k++ { // k neighbouring checksum characters replaced
+				for i := len(valid) - w; i+k <= len(valid); i++ {
+					b := []byte(valid)
+					for j := 0; j < k; j++ {
+						b[i+j] = b32Charset[(symbolOf(valid[i+j])+1+j)%32]
+					}
+					cands = append(cands, string(b), asciiUpper(string(b)))
+				}
+			}
+			for _, c := range cands {
+				n++
+				if accepts(c) {
+					ev.Note("decoder accepts %q: its data contains the checksum it should end with, its end is something else", c)
+					kC03Witness.One(ev, c03Witness{Codec: codec, Valid: valid, Corrupted: asciiLower(c)})
+					if codec == "cashaddr" {
+						kC03Witness.One(ev, c03Witness{Codec: "cashaddr-address", Valid: valid, Corrupted: asciiLower(c)})
+					}
+					return false
+				}
+			}
+		}
+		return true
+	}
+	for _, hrp := range []string{"a", "bc", "tb", "bitcoincash", "x1y"} {
+		for _, l := range []int{16, 20, 33, 52} {
+			syms := make([]byte, l)
+			for i := range syms {
+				syms[i] = byte((i*7 + l + len(hrp)) % 32)
+			}
+			if !try("bech32", hrp, syms, 6, func(y []byte) string { return refBech32Encode(hrp, y) }) {
+				return
+			}
+		}
+	}
+	seen := map[string]bool{}
+	for _, net := range nets {
+		for _, p := range []string{net.Params.CashAddressPrefix, net.Params.SlpAddressPrefix} {
+			if p == "" || seen[p] {
+				continue
+			}
+			seen[p] = true
+			for _, size := range []int{20, 32} {
+				hash := make([]byte, size)
+				for i := range hash {
+					hash[i] = byte(i*29 + size)
+				}
+				body := refCashEncode(p, 0, hash)
+				syms := make([]byte, len(body)-8)
+				for i := range syms {
+					syms[i] = byte(symbolOf(body[i]))
+				}
+				p := p
+				if !try("cashaddr", p, syms, 8, func(y []byte) string { return p + ":" + refCashEncodeSymbols(p, y) }) {
+					return
+				}
+			}
+		}
+	}
+	ev.Note("self-checksum probe: %d strings built whose data contains its own checksum", built)
+	ev.Bulk("C03:checksum-characters-also-inside-the-data", n, n)
+}
+
 func addressAcceptanceProbe(ev *Ev) {
 	var prefixes []string
 	seen := map[string]bool{}
@@ -1338,6 +1487,7 @@ func TestC03(t *testing.T) {
 		addressAcceptanceProbe(ev)
 		if shard == 0 {
 			boundarySingles(ev)
+			selfChecksumProbe(ev)
 		}
 		if len(ev.violations) > 0 {
 			return
